@@ -22,7 +22,7 @@ PLAN = Plan("C11", RULE, ASSUME,
 
 def run(ctx):
     import numpy as np
-    from dtaidistance import dtw, dtw_ndim, dtw_cc, ed
+    from dtaidistance import dtw, dtw_ndim, dtw_cc, ed, ed_cc
     rng = ctx.rng
     n, npaths, bad = oracle.selfcheck(rng, 100)
     ctx.count("oracle_selfcheck_cases", n)
@@ -68,6 +68,30 @@ def run(ctx):
             except Exception as e:
                 ctx.violation("exception", fn="dtw_ndim.distance[%s]" % route, error=repr(e)[:300], s1=s1.tolist(),
                               s2=s2.tolist(), settings=dict(dtwmon.settings_key(kw)))
+        # the multivariate Euclidean upper bound: definition (vector point distances, padding with the last point of the
+        # shorter series) == Python == C, through every entry point that returns it
+        if isinstance(kw.get("inner_dist", "squared euclidean"), str):
+            inner_ = kw.get("inner_dist", "squared euclidean")
+            inn_ = oracle.INNER[(inner_, True)]
+            want_ub = oracle.ref_ed(s1.tolist(), s2.tolist(), inn_.dist, inn_.result)
+            ubs = [("ed.distance(use_ndim)", lambda: ed.distance(s1, s2, inner_dist=inner_, use_ndim=True)),
+                   ("dtw_ndim.ub_euclidean", lambda: dtw_ndim.ub_euclidean(s1, s2, inner_dist=inner_)),
+                   ("dtw_ndim.distance(only_ub)", lambda: dtw_ndim.distance(s1, s2, only_ub=True, inner_dist=inner_)),
+                   ("dtw_ndim.distance_fast(only_ub)", lambda: dtw_ndim.distance_fast(s1, s2, only_ub=True, inner_dist=inner_)),
+                   ("ed_cc.distance_ndim", lambda: ed_cc.distance_ndim(s1, s2, inner_dist=0 if inner_[0] == "s" else 1))]
+            if inner_[0] == "s":
+                ubs.append(("dtw_cc.ub_euclidean_ndim", lambda: dtw_cc.ub_euclidean_ndim(s1, s2)))
+            for name_, f_ in ubs:
+                try:
+                    with monitors.quiet():
+                        v_ = float(f_())
+                except Exception as e:
+                    ctx.violation("exception", fn=name_, error=repr(e)[:300], s1=s1.tolist(), s2=s2.tolist())
+                    continue
+                ctx.count("ndim_upper_bound_checks")
+                if not oracle.close(v_, want_ub):
+                    ctx.violation("ndim-upper-bound", fn=name_, got=v_, reference=want_ub, s1=s1.tolist(), s2=s2.tolist(),
+                                  inner_dist=inner_)
         # matrices and paths (monitors of C04 / C05, labelled by this property through the run)
         kw2 = {k: v for k, v in kw.items() if k != "max_step"}
         with monitors.quiet():
